@@ -11,7 +11,8 @@ def vectors_ok():
     import aiocoap.defaults as d
 
     real = d.oscore_missing_modules
-    # ge25519 / lakers are only needed for Group OSCORE and EDHOC, which C11-C13 do not touch
+    # lakers is only needed for EDHOC, which C11-C13 do not touch; ge25519 (Ed25519 -> X25519 key conversion of
+    # Group OSCORE's pairwise mode) has a stand-in in harness/shims which group_env() checks
     missing = [m for m in real() if m not in ("ge25519", "lakers-python")]
     if missing:
         return False, "oscore modules missing even with shims: %r" % (missing,)
@@ -39,3 +40,73 @@ def _run():
     return ok, "ran=%d failures=%d errors=%d skipped=%d %s" % (
         res.testsRun, len(res.failures), len(res.errors), len(res.skipped),
         (res.failures + res.errors)[0][1][-500:] if (res.failures or res.errors) else "")
+
+
+def group_env():
+    """What Group OSCORE (C11's group part) needs from the environment beyond vectors_ok().
+
+    -> dict(ed25519=bool, x25519_conversion=bool, p256=bool, ec_eq_compat=bool, notes=[...])
+
+    * `x25519_conversion`: the ge25519/fe25519 stand-ins make aiocoap.util.cryptography_additions convert
+      an Ed25519 public key into the X25519 public key of the converted private key (an exact identity,
+      checked on fixed keys including the RFC 8032 test-1 pair; the X25519 side is OpenSSL's).
+    * `ec_eq_compat`: cryptography < 40 has no `__eq__` on EC public key objects, which
+      SimpleGroupContext.__init__ relies on (`public_from_private(private_key) != sender_public_key`)
+      for ECDSA_SHA256_P256; the upstream semantics (equal public numbers) are added to the installed
+      backend class. This changes a third-party dependency's object, not the code under test."""
+    import hashlib
+
+    out = {"ed25519": False, "x25519_conversion": False, "p256": False, "ec_eq_compat": False, "notes": []}
+    try:
+        from cryptography.hazmat.primitives.asymmetric import ed25519, ec
+        from cryptography.hazmat.primitives import serialization as s
+    except Exception as e:  # pragma: no cover
+        out["notes"].append("cryptography asymmetric primitives missing: %r" % (e,))
+        return out
+
+    def raw(k):
+        return k.public_bytes(encoding=s.Encoding.Raw, format=s.PublicFormat.Raw)
+
+    try:
+        sk = ed25519.Ed25519PrivateKey.from_private_bytes(hashlib.sha256(b"verif-c11").digest())
+        sk.public_key().verify(sk.sign(b"x"), b"x")
+        out["ed25519"] = True
+    except Exception as e:
+        out["notes"].append("Ed25519 unsupported: %r" % (e,))
+    if out["ed25519"]:
+        try:
+            from aiocoap.util import cryptography_additions as ca
+
+            for i in range(4):
+                sk = ed25519.Ed25519PrivateKey.from_private_bytes(hashlib.sha256(b"verif-c11-%d" % i).digest())
+                if raw(ca.pk_to_curve25519(sk.public_key())) != raw(ca.sk_to_curve25519(sk).public_key()):
+                    raise AssertionError("converted public key is not the public key of the converted private key")
+            # RFC 8032 section 7.1 test 1: the pair is genuine, and the identity holds for it as well
+            sk = ed25519.Ed25519PrivateKey.from_private_bytes(bytes.fromhex("9d61b19deffd5a60ba844af492ec2cc44449c5697b326919703bac031cae7f60"))
+            if raw(sk.public_key()).hex() != "d75a980182b10ab7d54bfed3c964073a0ee172f3daa62325af021a68f707511a":
+                raise AssertionError("RFC 8032 test-1 key pair not reproduced")
+            if raw(ca.pk_to_curve25519(sk.public_key())) != raw(ca.sk_to_curve25519(sk).public_key()):
+                raise AssertionError("RFC 8032 test-1 public key does not convert to the X25519 public key of its private key")
+            out["x25519_conversion"] = True
+        except Exception as e:
+            out["notes"].append("Ed25519 -> X25519 conversion (ge25519 stand-in) unusable: %r" % (e,))
+    try:
+        k = ec.generate_private_key(ec.SECP256R1())
+        a, b = k.public_key(), k.public_key()
+        if not (a == b):
+            cls = type(a)
+
+            def _eq(self, other):
+                if not isinstance(other, ec.EllipticCurvePublicKey):
+                    return NotImplemented
+                return self.public_numbers() == other.public_numbers()
+
+            cls.__eq__ = _eq
+            cls.__hash__ = lambda self: hash(self.public_numbers())
+            out["ec_eq_compat"] = True
+            out["notes"].append("cryptography < 40: EC public keys compare by identity; upstream __eq__ (public numbers) added to %s" % cls.__name__)
+        other = ec.generate_private_key(ec.SECP256R1()).public_key()
+        out["p256"] = (k.public_key() == k.public_key()) and not (k.public_key() == other)
+    except Exception as e:
+        out["notes"].append("P-256 unsupported: %r" % (e,))
+    return out
